@@ -5,22 +5,22 @@ HERE = os.path.dirname(os.path.abspath(__file__))
 
 CLAIMED = {
  "C05": dict(
-   text="Seeded search over operation histories (30 operation kinds: next/next_back/nth/nth_back/len/size_hint/clone, skip/step_by/rev/take/enumerate adapters from both ends, by-value last/count/fold/rfold/find/position on clones) on 1-4 live iterator handles of ~115 generated enum instantiations (N=0..8 enabled variants plus 13..257, every placement of disabled variants, explicit discriminants, generics instantiated with a !Send+!Sync payload), in debug (overflow checks on) and release (off) builds, against a two-cursor reference model whose nth/skip/step_by/rev behaviour is core's own default methods; after every step every live handle's len, size_hint and full remaining contents from both ends are compared. Huge-n arguments (usize::MAX, MAX-1, MAX/2, around powers of two, random u64) are the injected fault. The Send+Sync clause is decided by compiling a probe. Exploration, not proof: every (N, front, back) cursor state is visited for each corpus N and the evidence reports the measured coverage.",
+   text="Seeded search over operation histories (31 operation kinds: next/next_back/nth/nth_back/len/size_hint/clone/clone_from, skip/step_by/rev/take/enumerate adapters from both ends, by-value last/count/fold/rfold/find/position on clones) on 1-4 live iterator handles of ~115 generated enum instantiations (N=0..8 enabled variants plus 13..4097, thorough tier also 65535..65537; every placement of disabled variants, explicit discriminants, attribute noise, generics instantiated with a !Send+!Sync payload), in debug (overflow checks on) and release (off) builds, against a two-cursor reference model whose nth/skip/step_by/rev behaviour is core's own default methods; after every step every live handle's len, size_hint and full remaining contents from both ends are compared. Huge-n arguments (usize::MAX, MAX-1, MAX/2, around powers of two, random u64) are the injected fault. The Send+Sync clause is decided by compiling a probe; a liveness watchdog turns a call that does not return into a replayable 'hang' violation. Exploration, not proof: every (N, front, back) cursor state is visited for each corpus N and the evidence reports the measured coverage.",
    note="Trusted: rustc/core (reference adapters), the corpus generator's explicit expected-item lists, the harness. Histories are sampled (bounded to 40 steps, 4 handles), not enumerated.",
    technique="deterministic simulation: seeded operation-history search vs. reference model, huge-n fault injection, debug+release",
    design="3"),
  "C10": dict(
-   text="Seeded search over write/read/constructor histories on 1-3 live EnumTable values of ~90 generated field-less enums (1..300 slots, disabled variants in every position, explicit discriminants, keyword/acronym/digit identifiers) against a Vec reference map; every written value is unique so each read is attributable to one write; after every step every slot of every live table is compared. Injected faults: planted None/Err slots in every position subset for all()/all_ok() (first-Err-in-declaration-order oracle), indexing with disabled keys (must panic and change nothing), panicking closures during from_closure/transform. Exploration, not proof.",
+   text="Seeded search over write/read/constructor histories on 1-3 live EnumTable values of ~90 generated field-less enums (1..300 slots, disabled variants in every position, explicit discriminants, attribute noise, keyword/acronym/digit/case-pair identifiers) against a Vec reference map; every written value is unique so each read is attributable to one write; after every step every slot of every live table is compared. Injected faults: planted None/Err slots in every position subset for all()/all_ok() (first-Err-in-declaration-order oracle), indexing with disabled keys (must panic and change nothing), panicking closures during from_closure/transform; clone/clone_from/eq/hash probes between live tables. Exploration, not proof.",
    note="Trusted: rustc/core, the generator-written key lists and positional new() glue, the harness. Histories are sampled, not enumerated.",
    technique="deterministic simulation: seeded write/read history search vs. reference map, planted None/Err and disabled-key fault injection",
    design="4"),
  "C11": dict(
-   text="The real derived Display/FromStr/AsRef/Into<&'static str> forwarding code runs between a simulated caller (256 format specs x runtime width/precision), a fault-injecting fmt::Write sink and a scripted inner value (Probe) that records the Formatter state it is handed, chunks its output and can fail on its own; outputs, results and recorded formatter state are compared with formatting the inner value directly. Capture leg: every input outside the generator-written claim set must come back inside the default variant byte-for-byte, with exactly one From<&str> call. Exploration, not proof.",
+   text="The real derived Display/FromStr/AsRef/Into<&'static str> forwarding code runs between a simulated caller (256 format specs x runtime width/precision), a fault-injecting fmt::Write sink and a scripted inner value (Probe) that records the Formatter state it is handed, chunks its output and can fail on its own; outputs, results and recorded formatter state are compared with formatting the inner value directly. Capture leg: every input outside the generator-written claim set (case flips, one-edit neighbours, Unicode look-alikes, invisible prefixes, disabled variants' and the default variant's own spellings, 4 KiB strings) must come back inside the default variant byte-for-byte, with exactly one From<&str> call. Exploration, not proof.",
    note="Trusted: rustc/core::fmt, the generator-written claim sets, the harness. The capture/AsRef legs have no fault dimension (stated in DESIGN 5.2).",
    technique="deterministic simulation: forwarding layer between simulated caller, fault-injecting sink and scripted inner value",
    design="5.2"),
  "C17": dict(
-   text="Generated Display::fmt for every variant kind is driven by a simulated caller (format-spec grid with runtime width/precision) into a fault-injecting fmt::Write sink and compared with rustc's own write!(sink, spec, NAME) for fixed names and write!(sink, \"<same literal>\", fields..) for placeholder names; fault-free runs demand byte equality, sink-fault runs demand Err plus accepted bytes being a prefix of the reference output (nothing duplicated, reordered or written after a refusal). Exploration, not proof.",
+   text="Generated Display::fmt for every variant kind is driven by a simulated caller (format-spec grid with runtime width/precision) into a fault-injecting fmt::Write sink and compared with rustc's own write!(sink, spec, NAME) for fixed names and write!(sink, \"<same literal>\", fields..) for placeholder names; fault-free runs demand byte equality and the same result (incl. Err when a field's own Display fails), sink-fault runs demand Err plus accepted bytes being a prefix of the reference output (nothing duplicated, reordered or written after a refusal); placeholder variants under non-trivial caller specs are held to the error-propagation invariants only. Exploration, not proof.",
    note="Trusted: rustc/core::fmt (the reference side), the generator-written canonical names and reference arms, the harness. Non-trivial caller specs on interpolated variants are outside the statement and not checked.",
    technique="deterministic simulation: generated Display vs. rustc format_args! through a fault-injecting fmt::Write sink",
    design="5.1"),
